@@ -37,6 +37,7 @@ def gen_model(rng, small=False):
     if product_only and len(g.params) < 2:
         g.decl("pz", prefixes=["parameter"], value=num(round(rng.uniform(0.5, 4), 2)))
         g.params.append("pz")
+    coef = rng.choice([2, 3, 0.5])
     # parameter-dependent and literal attributes
     for v in m["vars"]:
         if v["type"] == "Real" and not v["dims"] and not v["prefixes"] and rng.random() < 0.5:
@@ -52,7 +53,8 @@ def gen_model(rng, small=False):
                     tags.add("attr:literal")
             elif k < 0.4:
                 v["attrs"]["min"] = ("neg", var(p))
-                v["attrs"]["max"] = ("bin", "+", ("bin", "*", num(2), var(p)), num(1))
+                # (CasADi turns 2 * p into its own operation 'twice', other coefficients into a multiplication)
+                v["attrs"]["max"] = ("bin", "+", ("bin", "*", num(coef), var(p)), num(1))
                 tags.add("attr:affine-in-parameter")
             elif k < 0.6:
                 v["attrs"]["nominal"] = ("bin", "*", var(p), var(p))
@@ -76,6 +78,14 @@ def gen_model(rng, small=False):
         g.decl("xlate", attrs={"max": ("bin", "+", ("bin", "*", num(3), var(p)), num(1)), "min": ("neg", var(p))})
         m["eqs"].append(("eq", var("xlate"), ("bin", "+", var(g.scalars[0]), num(1))))
         tags.add("attr:on-scalar-declared-after-arrays")
+    if rng.random() < 0.3:
+        # a matrix variable whose attribute is a matrix parameter with all-different elements
+        r_, c_ = rng.choice([(2, 3), (3, 2), (2, 2), (1, 3), (3, 1)])
+        vals = [[num(round(1 + i * c_ + j + rng.random() / 2, 2)) for j in range(c_)] for i in range(r_)]
+        g.decl("pm", prefixes=["parameter"], dims=[r_, c_], value=("arr", [("arr", row) for row in vals]))
+        g.decl("Tm", dims=[r_, c_], attrs={rng.choice(["max", "nominal", "start"]): var("pm")})
+        m["eqs"].append(("eq", var("Tm"), ("bin", "*", var("pm"), var(g.scalars[0]))))
+        tags.add("attr:matrix-parameter-on-matrix-variable:%dx%d" % (r_, c_))
     if rng.random() < 0.3 and g.vectors and not product_only:
         for v in m["vars"]:
             if v["name"] == g.vectors[0]:
@@ -96,7 +106,13 @@ def finish(rng, g, m, tags):
     if rng.random() < 0.4:
         # a constant assignment: with eliminate_constant_assignments the variable becomes a model constant whose
         # value is a constant expression node, not a number
-        g.decl("kc1")
+        kattrs = None
+        if g.params and rng.random() < 0.5:
+            # with eliminate_constant_assignments the variable takes its attributes along into the constants list
+            pa, pb = g.params[0], g.params[-1]
+            kattrs = {"max": rng.choice([("bin", "*", var(pa), var(pb)), ("bin", "+", ("bin", "*", num(3), var(pa)), num(1))])}
+            tags.add("attr:parameter-dependent-on-constant-assignment-variable")
+        g.decl("kc1", attrs=kattrs)
         v = round(rng.uniform(1, 9), 1)
         m["eqs"].append(("eq", var("kc1"), num(v)))
         tags.add("constant-assignment-equation")
